@@ -146,12 +146,16 @@ CHECKS['C04'] = (
 CHECKS['C03'] = (
     'Lean 4 theorems (a printed table row is read back token for token with only the exponent marker changed; writer and reader letter conventions of '
     'the must-succeed formats agree, over call sites regenerated from the writer/reader modules; letters and integers inverse for l<25; soundness of the '
-    'sameFuncs checker) + the verified checker and an exact-decimal oracle on read(write(b)) for the 14 write+read formats',
+    'sameFuncs checker; nwchem_electron_roundtrip: the token-level reader model applied to the token-level writer model returns every element and shell unchanged) '
+    '+ the verified checker and an exact-decimal oracle on read(write(b)) for the 14 write+read formats + writer/reader models against writers/nwchem.py / readers/nwchem.py line for line',
     'Proof (on the model): read_printed_row (tokens of replace_d(convert_exp(row)) = cells up to e/E/D), tokens_map, marker_roundtrip, '
     'letter_conventions_agree, g94_uniform, letters_inverse, write_read_formats, readback_checker_sound. Tie/validation: every explored (basis, format, '
     'header, subset) must read back with equal elements / function sets / ECP terms or raise; gaussian94, nwchem, turbomole must succeed, also through '
-    '.bz2 + extension autodetection and convert_* against direct export. Partial: the section parsers of the readers (partition_lines, per-format '
-    'regular expressions) are not modelled; they are covered by the verified checker on explored inputs only.',
+    '.bz2 + extension autodetection and convert_* against direct export. One whole section is modelled and proved: the NWChem electron basis at token level (head lines / number rows, the reader\'s own partition test): '
+    'nwchem_electron_roundtrip = read(write(els)) = els for every list of elements with distinct Z in 1..118 and rectangular shells with l < 25, over the library\'s '
+    'own symbol and letter tables (nwchem_symbols_roundtrip, nwchem_am_roundtrip); the two models are compared with the real writer (token lines equal) and the real '
+    '_parse_electron_lines on written and on 13 kinds of malformed streams (verdict and data). Partial: the other section parsers (ECP section, the 13 other formats) are '
+    'not modelled; they are covered by the verified checker on explored inputs only.',
     BASE_NOTE + 'contiguous momenta up to l = 11 in generated inputs (positional formats cannot express a gap; letter classes of some readers end at l = 11).', '6/C03')
 
 CHECKS['C11'] = (
